@@ -35,6 +35,11 @@ PROP = {
             "schemas (nullable / NOT NULL columns, up to two indexes per table) is inserted into a fresh memo through the "
             "`verif::plan` facade, every transformation rule of rules.rs is applied to its root and the alternatives (as plain trees) "
             "must be exactly what the Lean rule functions of Model/Plan.lean produce (tags rule.fires.* = rules that fired). "
+            "A third of the clean cases carry the family 'keys re-used inside one transaction': within one session (committed or "
+            "rolled back) or one Database::execute_batch (`batch … endbatch`) rows are deleted and rows with the same indexed keys "
+            "inserted again (same or other values), or inserted then deleted, or delete-insert-delete[-insert], or the key of a "
+            "rolled-back INSERT is inserted again; every touched key is then looked up by equality and by range — index plan against "
+            "table scan through the pair forms — before and after VACUUM (and ANALYZE where allowed). "
             "Every case is non-trivial; distinct = distinct case line.",
     "assumptions": [
         "indexed columns hold distinct non-NULL values (every index of the engine is a unique index; duplicates and NULLs in "
